@@ -500,7 +500,8 @@ class MinMaxAggregator:
         new_terms = [Function(LOC, chain_name, [PREV, NEXT], False)] + list(terms)
 
         newargs = translation.translate_parameters(oldmax.atom.symbol.arguments)
-        newargs = [next_ if i == idx else x for i, x in enumerate(newargs)]
+        newidx = list(translation.mapping)[idx]  # position of the result in the new predicate
+        newargs = [next_ if i == newidx else x for i, x in enumerate(newargs)]
         for arg in newargs:
             assert isinstance(arg, AST)
         chainpred = Literal(
